@@ -50,7 +50,7 @@ func hold(ctx erpc.PushCtx, arg *string) *erpc.Status {
 
 type oworld struct {
 	*world
-	port   int
+	port     int
 	qsess    []erpc.Session // remote ends, by session number
 	displace map[int]int    // session n's accept displaced session m (its goroutine parks in m's Close)
 }
@@ -103,13 +103,15 @@ func runOverlapCase(st *Stats, idx int, script []string) (string, string) {
 	l0, err := net.Listen("tcp", "127.0.0.1:0")
 	Must(err)
 	w.port = l0.Addr().(*net.TCPAddr).Port
-	l0.Close()
+	// the listener stays open and is handed to the accept path itself (ListenAndServe would open
+	// its own on the configured port - which somebody else may take in between - and end the
+	// process on failure)
 	LP := erpc.NewPeer(erpc.PeerConfig{LocalIP: "127.0.0.1", ListenPort: uint16(w.port)}, w.rec)
 	LP.RoutePushFunc(hold)
 	recMu.Lock()
 	recOf[LP] = w.rec
 	recMu.Unlock()
-	go LP.ListenAndServe()
+	go erpc.VerifServeListener(LP, l0)
 	addr := fmt.Sprintf("127.0.0.1:%d", w.port)
 	WaitUntil(3*time.Second, func() bool {
 		c, e := net.Dial("tcp", addr)
